@@ -53,8 +53,16 @@ BulkPairEvOK(e) ==
           /\ \E y \in DOMAIN e.keys : e.keys[y] = e.singles[x].i /\ e.vals[y] = e.singles[x].ret
     /\ \A y \in DOMAIN e.keys : \E x \in DOMAIN e.singles : e.singles[x].i = e.keys[y]
 
+(* C03 on the unwinding path: one element's comparisons panic; whatever the routine was doing when that happened, the lane *)
+(* still holds every element exactly once (identities) and nothing outside the view changed                               *)
+PoisonEvOK(e) ==
+    /\ e.out \in {"ok", "panic"}
+    /\ SameBag(e.ida, e.idafter)
+    /\ FrameOK(e.pm0, e.pm1, e.vin)
+
 EventOK(e) ==
     CASE e.ev = "partition" -> PartitionEvOK(e)
+      [] e.ev = "poison"    -> PoisonEvOK(e)
       [] e.ev = "bulkpair"  -> BulkPairEvOK(e)
       [] e.ev = "select"    -> SelectEvOK(e)
       [] e.ev = "bulk"      -> BulkEvOK(e)
